@@ -1471,8 +1471,10 @@ def explore(fn, c, max_paths=200000, wall_s=None):
             # a wall-clock limit hit while most of the time went into the solver says nothing about the analysed code
             rec['outcome'] = 'timeout' if (c.stats['solver_s'] - solver0) < 0.5 * c.path_wall_s else 'solver-timeout'
         except DomainError as e:
+            import traceback
             rec['outcome'] = 'domain'
             rec['exc'] = repr(e)
+            rec['exc_where'] = ['%s:%d %s' % (os.path.basename(f.filename), f.lineno, f.name) for f in traceback.extract_tb(e.__traceback__)[-8:]]
         except NotEncodable as e:
             rec['outcome'] = 'notenc'
             rec['exc'] = repr(e)
